@@ -3,7 +3,7 @@
    regenerated from /repo on every run. *)
 From Coq Require Import ZArith List Bool.
 From QP Require Import Cx Zw Apply Gates.
-From QPM Require Import Pauli Conj.
+From QPM Require Import Transpile Pauli Conj.
 From QPG Require Import conjtab.
 Import ListNotations.
 
@@ -25,6 +25,24 @@ Theorem clifford_conjugation_sound :
   forall psi b, lsem (ksem g) (lsemL l psi) b = Cmul (zw_eval c) (lsemL l' (lsem (ksem g) psi) b).
 Proof. intros. eapply conj_sound; eauto. apply conj_tables_ok. Qed.
 Print Assumptions clifford_conjugation_sound.
+
+(* ... with c = +1 or c = -1 (as a complex number): P and P' are involutions, so U = c^2 U; every kind of the
+   regenerated CLIFFORD_GATE_NAMES has an exact inverse kind (checked by computation), hence c^2 = 1 *)
+Theorem clifford_names_have_inverses : forallb has_inverse clifford_names = true.
+Proof. vm_compute. reflexivity. Qed.
+
+Theorem clifford_conjugation_coefficient_is_a_sign :
+  forall g l l' c, gate_wfb g = true -> gas g = [] -> NoDup (keys l) ->
+  conj_repo g l = Some (l', c) -> zw_eval c = C1 \/ zw_eval c = Copp C1.
+Proof.
+  intros g l l' c Hwf Has Hnd Hc.
+  apply (conj_sign pauli_products_map conj1_tab conj2_tab clifford_names conj_tables_ok g l l' c Hwf Has Hnd); [|exact Hc].
+  unfold conj_repo, conj in Hc.
+  destruct (existsb (gkind_eqb (gk g)) clifford_names) eqn:En; [|discriminate].
+  apply existsb_exists in En as [k [Hk Ek]]. apply Transpile.gkind_eqb_eq in Ek. subst k.
+  pose proof clifford_names_have_inverses as H. rewrite forallb_forall in H. apply H, Hk.
+Qed.
+Print Assumptions clifford_conjugation_coefficient_is_a_sign.
 
 (* gate kinds outside CLIFFORD_GATE_NAMES are rejected *)
 Theorem non_clifford_rejected :
